@@ -33,10 +33,13 @@ func (c *Commit) MergeBase(other *Commit) ([]*Commit, error) {
 	var res []*Commit
 	inNewerHistory := isInIndexCommitFilter(newerHistory)
 	resIter := NewFilterCommitIter(older, &inNewerHistory, &inNewerHistory)
-	_ = resIter.ForEach(func(commit *Commit) error {
+	err = resIter.ForEach(func(commit *Commit) error {
 		res = append(res, commit)
 		return nil
 	})
+	if err != nil {
+		return nil, err
+	}
 
 	return Independents(res)
 }
